@@ -45,6 +45,9 @@ type c05 struct {
 	plain   map[string][]byte // change id -> original plaintext
 	changeGen map[string]int  // change id -> key generation it must be encrypted under
 	nEdits  int
+	// longLived: the original owner keeps one tree object open for the whole run and is the only editor
+	// (an open tree must pick up key rotations that happen while it stays open)
+	longLived objecttree.ObjectTree
 }
 
 func (c *c05) advanceRefs() {
@@ -255,9 +258,20 @@ func (c *c05) edit() {
 		return
 	}
 	a := writers[s.Choose("editor", len(writers))]
-	t, err := c.treeFor(a)
-	if err != nil {
-		c.r.Fail("writer-cannot-open-tree", "", "%s (writer) cannot build the tree from storage with its own ACL view: %v", a.Name, err)
+	var t objecttree.ObjectTree
+	var err error
+	if c.longLived != nil {
+		a = c.accs[0]
+		if !cst.Permissions(a.Pub()).CanWrite() {
+			return
+		}
+		t = c.longLived
+		c.r.Probe("edit-through-long-lived-tree")
+	} else {
+		t, err = c.treeFor(a)
+		if err != nil {
+			c.r.Fail("writer-cannot-open-tree", "", "%s (writer) cannot build the tree from storage with its own ACL view: %v", a.Name, err)
+		}
 	}
 	c.nEdits++
 	marker := []byte(fmt.Sprintf("PLAINTEXT-MARKER-%d-by-%s-0123456789", c.nEdits, a.Name))
@@ -369,6 +383,11 @@ func runC05(r *core.Run) {
 	}
 	c.setupTree()
 	defer func() { _ = c.db.Close() }()
+	if s.Flip("long-lived-tree", 0.5) {
+		t, err := c.treeFor(w.accs[0])
+		must(err)
+		c.longLived = t
+	}
 	onAccept := func(before preState, k int) {
 		c.noteRevocations(before, k)
 		c.advanceRefs()
